@@ -308,7 +308,11 @@ TokenSane(tok) ==
        [] k = "doctype" -> NameSane(tok.n) /\ tok.ext \in {"none", "system", "public"}
                            /\ LiteralSane(tok.pub) /\ LiteralSane(tok.sys) /\ tok.subset \in BOOLEAN
        [] k = "entity" -> NameSane(tok.n) /\ ItemsSane(tok.v, "entity")
-                          /\ \A i \in 1..Len(tok.v) : tok.v[i].t \in {"c", "r"} => tok.v[i].c \notin {60, 38, 37}
+                          \* '&' and '%' would start references inside the replacement text (not modelled); a
+                          \* literal '<' neither, but `&#60;` is: the replacement text then holds markup, which makes
+                          \* a content reference out of profile and an attribute reference a violation (LtInAttr)
+                          /\ \A i \in 1..Len(tok.v) : /\ (tok.v[i].t = "c" => tok.v[i].c \notin {60, 38, 37})
+                                                      /\ (tok.v[i].t = "r" => tok.v[i].c \notin {38, 37})
        [] k = "uentity" -> NameSane(tok.n) /\ tok.ext \in {"system", "public"} /\ LiteralSane(tok.pub)
                            /\ LiteralSane(tok.sys) /\ (tok.ndata = <<>> \/ NameSane(tok.ndata))
        [] k = "notation" -> NameSane(tok.n) /\ tok.ext \in {"system", "public", "pubonly"}
@@ -363,6 +367,9 @@ OutOfProfile(st, items) ==
      /\ items[i].t = "e"
      /\ \/ (items[i].n \in st.external /\ ~Declared(st.ents, items[i].n))
         \/ (st.extSubset /\ ~Known(st.ents, items[i].n) /\ items[i].n \notin st.unparsed)
+        \* an entity whose replacement text holds '<': included in content it is markup, which this machine
+        \* does not parse (in an attribute value it is the violation LtInAttr, see ItemViol)
+        \/ HasLt(<<items[i]>>, st.ents, Len(st.ents) + 1)
 
 DeclaredAny(st, n) == Declared(st.ents, n) \/ n \in st.unparsed \/ n \in st.external
 
